@@ -38,7 +38,8 @@ def set_memo(on):
     from csvpath.matching.util.lark_print_parser import LarkPrintParser
 
     _MEMO = on
-    if not on:
+    if not on or not (isinstance(getattr(LarkParser, "GRAMMAR", None), str) and isinstance(getattr(LarkPrintParser, "GRAMMAR", None), str)):
+        # memoisation is an optimisation only: a tree whose parsers keep their grammar elsewhere simply runs un-memoised
         LarkParser.__init__ = _ORIG["match"]
         LarkPrintParser.__init__ = _ORIG["print"]
         return
